@@ -409,6 +409,7 @@ func cmdRun(args []string) int {
 				}
 				rep.Violations++
 				nviol++
+				fmt.Printf("  counterexample: %s %s: %s [%s] inputs=%s\n", h.Fn, v.Kind, v.Msg, v.Verdict, fmtInputs(v.Inputs))
 				if nviol > 6 {
 					continue // enough replays; still counted
 				}
@@ -420,7 +421,6 @@ func cmdRun(args []string) int {
 				ok, out := nativeReplay(rp)
 				if ok {
 					violLines = append(violLines, fmt.Sprintf("VIOLATION property=%s replay=%s", id, rp))
-					fmt.Printf("  %s %s: %s [%s] inputs=%s\n", h.Fn, v.Kind, v.Msg, v.Verdict, fmtInputs(v.Inputs))
 					exitCode = 1
 				} else {
 					fmt.Printf("ENGINE-ERROR: %s %s: counterexample did not reproduce natively (%s: %s) replay=%s\n%s\n", id, h.Fn, v.Kind, v.Msg, rp, tail(out, 15))
